@@ -5,8 +5,11 @@ import numpy as np
 from ..core import *
 from ..runner import Prop, Group
 
-def exact_eating(P, speeds):
-    """independent exact-rational simulation of the eating process (P: 1-based ranks, complete strict)"""
+THR_REM, THR_EAT = Fraction(1e-9), Fraction(1 - 1e-9)      # the two snapping thresholds of the code, as binary64 values
+
+def exact_eating(P, speeds, flags=None):
+    """independent exact-rational simulation of the eating process (P: 1-based ranks, complete strict); flags["snap"] is set when the run enters one of
+    the code's snapping windows (a remaining fraction in (0, 1e-9], an eaten amount in [1 - 1e-9, 1)), where the code and the exact process differ"""
     n = len(P)
     order = [sorted(range(n), key=lambda j: P[i][j]) for i in range(n)]
     rem = [Fraction(1)] * n; eaten = [Fraction(0)] * n
@@ -21,6 +24,9 @@ def exact_eating(P, speeds):
         ts = [(1 - eaten[i]) / speeds[i] for i in range(n) if cur[i] is not None]
         ts += [rem[j] / tot[j] for j in range(n) if tot[j] > 0]
         t = min(ts)
+        if flags is not None:
+            if any(0 < rem[j] - tot[j] * t <= THR_REM for j in range(n)) or any(THR_EAT <= eaten[i] + t * speeds[i] < 1 for i in range(n) if cur[i] is not None):
+                flags["snap"] = True
         for i in range(n):
             if cur[i] is not None:
                 X[i][cur[i]] += t * speeds[i]; eaten[i] += t * speeds[i]
@@ -30,6 +36,7 @@ def exact_eating(P, speeds):
 
 class C05(Prop):
     layouts = True
+    translators = ['eatloop']      # regenerated from the source on every run (harness/translate.py)
     pid = "C05"
     sources = ["socialchoicekit/randomized_allocation.py"]
     groups = {"eat": Group("eat", "From SCK Require Import Argsort RunEat.", "RunEat.eat_case", "RunEat.chk_eat")}
@@ -132,7 +139,7 @@ class C05(Prop):
         sp = [Fraction(float(Fraction(s))) for s in case["speeds"]]
         if len(X) != n or any(len(r) != n for r in X):
             return ("shape", "matrix shape")
-        ref = exact_eating(P, sp)
+        fl = {}; ref = exact_eating(P, sp, fl); obs["exact_run_outside_snapping_windows"] = not fl.get("snap", False)
         for i in range(n):
             for j in range(n):
                 if abs(Fraction(X[i][j]) - ref[i][j]) > Fraction(1, 10**7):
@@ -158,5 +165,14 @@ class C05(Prop):
 
     def nontrivial(self, case, obs):
         return len(case["P"]) >= 2
+
+    def finish(self, records):
+        self._snap = (sum(1 for r in records if r[1].get("exact_run_outside_snapping_windows")), sum(1 for r in records if "exact_run_outside_snapping_windows" in r[1]))
+        return []
+
+    def extra_coverage(self):
+        k, n = getattr(self, "_snap", (0, 0))
+        return dict(generated_model_domain="the model regenerated from the source (EatLoopGen.v) is proved equal to the exact model on runs outside the code's two snapping windows "
+                                           "(gen_eat_is_model): %d of the %d evaluated cases have such a run (computed by the harness's exact simulation)" % (k, n))
 
 PROP = C05()
